@@ -17,7 +17,7 @@ VARIABLE l
 
 Report(e) ==
     LET m == Simp(e.in)
-    IN  IF ACEq(m, e.out) THEN TRUE
+    IN  IF ACEq(m, e.out) \/ ACEq(SimpAlt(e.in), e.out) THEN TRUE
         ELSE PrintT(ToJson([id |-> e.id, fail |-> <<"MODEL-DRIFT">>, skip |-> <<>>, wit |-> -1, model |-> m]))
 
 TraceInit == l = 0
